@@ -44,6 +44,13 @@ func cutsAll(L, pairsUpTo int) [][]int {
 				out = append(out, []int{a, b})
 			}
 		}
+		// an empty first / last buffer next to every single cut (a Read that returned 0 bytes)
+		for c := 0; c <= L; c++ {
+			out = append(out, []int{0, c})
+			if c > 0 {
+				out = append(out, []int{c, L})
+			}
+		}
 	}
 	return out
 }
@@ -70,6 +77,7 @@ func cutsBoundary(L, S int) [][]int {
 	if L > S+1 {
 		out = append(out, []int{S - 1, S + 1}, []int{1, S}, []int{S, S})
 	}
+	out = append(out, []int{0, L}, []int{L, L}, []int{0, 0})
 	return out
 }
 
@@ -465,6 +473,63 @@ func family(fam string, S int, th bool) []*scenario {
 			add(&scenario{Store: "mem", Window: 2, Pubs: []pub{{Obj: "/a", Ver: 1, L: 2*S + 1}, {Obj: "/b", Ver: 1, L: 2*S + 1}}, Rems: []target{{Obj: "/a", Ver: 1, Seg: 2}},
 				Seq: seq(byName, con{Obj: "/b", Ver: noVer})})
 		}
+	case "tail", "tailP", "tailR":
+		// the end of the object, seen from a store / network that holds MORE than the object under
+		// <object>/<version>/: (a) content of n*S bytes whose input wire ends with empty buffers -
+		// Produce then stores an empty packet seg=n after FinalBlockId n-1; (b) the same version
+		// published again with fewer segments - the old tail packets stay in the store; (c) packets
+		// another application put there (scenario.Ext); (d) a network that answers any Interest for
+		// a segment past the end (scenario.Phantom). The consumer must fetch 0..FinalBlockId and
+		// complete once with the bytes of the latest publication, in every delivery order.
+		// tail: deviation-bounded schedules; tailP: every delivery order (Perm); tailR: the subset
+		// run by the real-segment-size build.
+		ns := []int{1, 2, 3}
+		if fam == "tailP" {
+			ns = []int{2, 3, 4, 5}
+			if th {
+				ns = []int{2, 3, 4, 5, 6}
+			}
+		}
+		if fam == "tailR" || (fam == "tailP" && !scaled) {
+			ns = []int{2, 3}
+		}
+		var scs []*scenario
+		for _, n := range ns {
+			L := n * S
+			scs = append(scs, one("mem", L, []int{L}), one("mem", L, []int{L, L}))
+			if fam != "tailR" {
+				scs = append(scs, one("mem", L, []int{0, L}), one("mem", L, []int{0, 0, L / 2, L / 2, L}))
+			}
+			byName := []con{{Obj: "/a", Ver: noVer}}
+			// published twice under one version: shorter by one / by two segments the second time, and longer
+			scs = append(scs, &scenario{Store: "mem", Pubs: []pub{{Obj: "/a", Ver: 1, L: L + S}, {Obj: "/a", Ver: 1, L: L}}, Cons: byName})
+			scs = append(scs, &scenario{Store: "mem", Pubs: []pub{{Obj: "/a", Ver: 1, L: L + S + 1}, {Obj: "/a", Ver: 1, L: L - 1}}, Cons: byName})
+			if fam == "tail" {
+				scs = append(scs, &scenario{Store: "mem", Pubs: []pub{{Obj: "/a", Ver: 1, L: L}, {Obj: "/a", Ver: 1, L: L + S}}, Cons: byName})
+			}
+			// foreign packets past the end: one / two, carrying the object's FinalBlockId or their own
+			scs = append(scs, &scenario{Store: "mem", Pubs: []pub{{Obj: "/a", Ver: 1, L: L}}, Ext: []ext{{Obj: "/a", Ver: 1, Seg: n, N: 3, FB: n - 1}}, Cons: byName})
+			scs = append(scs, &scenario{Store: "mem", Pubs: []pub{{Obj: "/a", Ver: 1, L: L - 1}}, Ext: []ext{{Obj: "/a", Ver: 1, Seg: n, N: S, FB: n}, {Obj: "/a", Ver: 1, Seg: n + 1, N: 1, FB: n + 1}}, Cons: byName})
+			// a network that answers every Interest past the end
+			ph := one("mem", L+1, nil)
+			ph.Phantom = true
+			scs = append(scs, ph)
+			if n == 2 {
+				ph2 := &scenario{Store: "bolt", Pubs: []pub{{Obj: "/a", Ver: 1, L: L}}, Cons: []con{{Obj: "/a", Ver: 1}}, Phantom: true} // version asked for explicitly
+				scs = append(scs, ph2, one("bolt", L, []int{L}), one("mem", L-1, []int{L - 1}), one("mem", L+1, []int{L + 1}),
+					&scenario{Store: "bolt", Pubs: []pub{{Obj: "/a", Ver: 1, L: L + S}, {Obj: "/a", Ver: 1, L: L}}, Cons: byName})
+			}
+		}
+		if fam == "tail" && scaled {
+			// the fetch window (10): the last Interests of the object fill it exactly / leave one slot
+			for _, n := range []int{10, 11} {
+				scs = append(scs, one("mem", n*S, []int{n * S}))
+			}
+		}
+		for _, sc := range scs {
+			sc.Perm = fam == "tailP"
+			out = append(out, sc)
+		}
 	case "slack":
 		// the enc.Name handed to Produce / Consume has spare capacity (as names built with append or
 		// decoded from packets have)
@@ -495,6 +560,15 @@ func build(cfg string) explore.System {
 		s.faceOps = true
 	}
 	s.scen = family(fam, S, thoroughTier())
+	if f := os.Getenv("C15_SCEN"); f != "" { // development aid: only the scenarios whose description contains f
+		var keep []*scenario
+		for _, sc := range s.scen {
+			if strings.Contains(sc.String(), f) {
+				keep = append(keep, sc)
+			}
+		}
+		s.scen = keep
+	}
 	s.index()
 	return s
 }
@@ -529,25 +603,25 @@ func configs(th bool) []explore.Config {
 
 func allConfigs(th bool) []explore.Config {
 	if object.VerifSegmentSize() >= 100 { // real segment size (child build)
-		c := []explore.Config{cfg("ver", 0), cfg("rem", 0), cfg("reuse", 0), cfg("vbound", 0), cfg("cache", 0), cfg("lat", 0), cfg("style", 0), cfg("typed", 0), cfg("latS", 1), cfg("styleS", 1), cfg("perm", -1), cfg("fifo", 0), cfg("sched1", 1), cfg("sched2", 2)}
+		c := []explore.Config{cfg("ver", 0), cfg("rem", 0), cfg("reuse", 0), cfg("vbound", 0), cfg("cache", 0), cfg("lat", 0), cfg("style", 0), cfg("typed", 0), cfg("latS", 1), cfg("styleS", 1), cfg("perm", -1), cfg("tailR", 0), cfg("tailP", -1), cfg("fifo", 0), cfg("sched1", 1), cfg("sched2", 2)}
 		if th {
-			c = append(c, cfg("long", 0))
+			c = append(c, cfg("long", 0), cfg("tailR", 1))
 		}
 		return c
 	}
 	// the k=0 runs come first so that a defect visible on the default schedule is reported with
 	// that (shortest) history
-	c := []explore.Config{cfg("ver", 0), cfg("rem", 0), cfg("dual", 0), cfg("slack", 0), cfg("reuse", 0), cfg("vbound", 0), cfg("cache", 0), cfg("lat", 0), cfg("style", 0), cfg("typed", 0), cfg("long", 0), cfg("cache", 1), cfg("reuseS", 1),
-		cfg("ver", 1), cfg("rem", 1), cfg("dual", 1), cfg("slack", 1), cfg("typedS", 1), cfg("styleS", 1), cfg("latS", 1), cfg("perm", -1), cfg("fifo", 0), cfg("sched1", 1), cfg("sched2", 2), histCfg(2)}
+	c := []explore.Config{cfg("ver", 0), cfg("rem", 0), cfg("dual", 0), cfg("slack", 0), cfg("reuse", 0), cfg("vbound", 0), cfg("cache", 0), cfg("lat", 0), cfg("style", 0), cfg("typed", 0), cfg("long", 0), cfg("tail", 0), cfg("cache", 1), cfg("reuseS", 1),
+		cfg("ver", 1), cfg("rem", 1), cfg("dual", 1), cfg("slack", 1), cfg("typedS", 1), cfg("styleS", 1), cfg("latS", 1), cfg("perm", -1), cfg("tailP", -1), cfg("tail", 1), cfg("fifo", 0), cfg("sched1", 1), cfg("sched2", 2), histCfg(2)}
 	if th {
-		c = []explore.Config{cfg("ver", 0), cfg("rem", 0), cfg("dual", 0), cfg("slack", 0), cfg("reuse", 0), cfg("vbound", 0), cfg("cache", 0), cfg("lat", 0), cfg("style", 0), cfg("typed", 0), cfg("long", 0), cfg("cache", 2), cfg("reuseS", 2),
-			cfg("ver", 2), cfg("rem", 2), cfg("dual", 2), cfg("slack", 2), cfg("typed", 1), cfg("typedS", 2), cfg("style", 1), cfg("styleS", 2), cfg("lat", 1), cfg("latT", 2), cfg("perm", -1), cfg("tiny", -1), cfg("fifo", 0),
+		c = []explore.Config{cfg("ver", 0), cfg("rem", 0), cfg("dual", 0), cfg("slack", 0), cfg("reuse", 0), cfg("vbound", 0), cfg("cache", 0), cfg("lat", 0), cfg("style", 0), cfg("typed", 0), cfg("long", 0), cfg("tail", 0), cfg("cache", 2), cfg("reuseS", 2),
+			cfg("ver", 2), cfg("rem", 2), cfg("dual", 2), cfg("slack", 2), cfg("typed", 1), cfg("typedS", 2), cfg("style", 1), cfg("styleS", 2), cfg("lat", 1), cfg("latT", 2), cfg("perm", -1), cfg("tailP", -1), cfg("tail", 2), cfg("tiny", -1), cfg("fifo", 0),
 			cfg("sched1", 1), histCfg(3), cfg("sched3", 3), cfg("sched2", 2)}
 	}
 	return c
 }
 
-const rule = "two real object.Client instances on a harness ndn.Engine; per scenario (store, publications with content length/buffer split/version, removals, consumers) every history that departs at most k times from the default schedule (client select arms in source order, FIFO delivery, timeouts only for lost Interests) is run to completion; deviations: another ready select arm, out-of-order delivery, packet loss, early/late timeout, a fatal per-Interest result (Nack, engine error) for a metadata or segment Interest, the consumer's face going down / coming back before an Interest is expressed (families ver, rem, dual, slack, lat, latS, latT, reuseS, cache), removal during the fetch; network events carry virtual times (arrival = send time + the scenario's round-trip time, expiry = send time + lifetime + 10 ms) and happen in an order consistent with them; families lat/latS/latT run networks with a round-trip time of 50 ms and 300 ms; every wire the producer's store hands out is kept and re-compared after every later store transaction and after four more at the end of the history; family perm explores every delivery order with no bound; consumer styles (families style, styleS, perm, long): the application copies each Content() piece at once / keeps the returned slices and joins them at completion / reads once at completion / reads in every second callback, kept slices are re-compared with a copy taken when they were returned; family typed publishes and consumes objects whose names differ in component type only (/p/doc next to /p/doc/metadata, /p/item next to /p/32=item, /p/n version 2 next to /p/n/%02), with removal of either; family long fetches objects of 1000, 1023, 1024, 1025 and 1100 segments (and two at once) on the default schedule in every consumer style; a case is non-trivial when it fetched an object of >=2 segments"
+const rule = "two real object.Client instances on a harness ndn.Engine; per scenario (store, publications with content length/buffer split/version, removals, consumers) every history that departs at most k times from the default schedule (client select arms in source order, FIFO delivery, timeouts only for lost Interests) is run to completion; deviations: another ready select arm, out-of-order delivery, packet loss, early/late timeout, a fatal per-Interest result (Nack, engine error) for a metadata or segment Interest, the consumer's face going down / coming back before an Interest is expressed (families ver, rem, dual, slack, lat, latS, latT, reuseS, cache), removal during the fetch; network events carry virtual times (arrival = send time + the scenario's round-trip time, expiry = send time + lifetime + 10 ms) and happen in an order consistent with them; families lat/latS/latT run networks with a round-trip time of 50 ms and 300 ms; every wire the producer's store hands out is kept and re-compared after every later store transaction and after four more at the end of the history; family perm explores every delivery order with no bound; consumer styles (families style, styleS, perm, long): the application copies each Content() piece at once / keeps the returned slices and joins them at completion / reads once at completion / reads in every second callback, kept slices are re-compared with a copy taken when they were returned; family typed publishes and consumes objects whose names differ in component type only (/p/doc next to /p/doc/metadata, /p/item next to /p/32=item, /p/n version 2 next to /p/n/%02), with removal of either; family long fetches objects of 1000, 1023, 1024, 1025 and 1100 segments (and two at once) on the default schedule in every consumer style; families tail (deviation-bounded) and tailP (every delivery order) put MORE than the object under <object>/<version>/: content of n*S bytes whose input wire ends with empty buffers (Produce then stores an empty packet after FinalBlockId), the same version published a second time with fewer (or more) segments (the old tail packets stay in the store), packets of another application past the end (carrying the object's FinalBlockId or their own), and a network that answers any segment Interest beyond FinalBlockId with a well-formed Data - the consumer must complete once with the bytes of the latest publication in every order; an Interest for a segment beyond FinalBlockId is remembered (request stream) and nothing that happens to it (no answer, Nack, Data) excuses a failed fetch; a case is non-trivial when it fetched an object of >=2 segments"
 
 var assumptions = []string{
 	"the select in Client.run() is replaced by hook VerifStep (one arm per call, same arm bodies); the engine callbacks only perform channel sends, so arm-granular interleaving covers the goroutine interleavings of the production client",
@@ -564,9 +638,11 @@ var assumptions = []string{
 	"canonical state = scenario + removals injected + consumer observations + per-name timeout counts + network list + white-box dump of the client queues and fetcher; finished runs collapse to one state",
 	"BoltStore runs with NoSync on a per-process file under /tmp that is emptied between instances (durability is not part of the property)",
 	"fetcher.doCheck termination is predicted by a transcription of its loop (hook VerifDoCheckSpins) because a spinning goroutine cannot be interrupted; an unpredicted hang is turned into CHECK-ERROR by a watchdog",
-	"store-level oracle: no packet name is a prefix of another packet name; among packets of the newest version under a prefix any may be returned",
+	"store-level oracle: among packets of the newest version under a prefix any may be returned; in the main, boundary and look-alike universes no packet name is a prefix of another; the prefix-related universe (8 packets: the chain /p, /p/x, /p/x/y, /p/x/y/z, the sibling /p/w, and /q, /q/v=1, /q/v=1/seg=0; 25 operations: Put, Remove by exact name and Remove by prefix of each, Remove of the root; depth 3, thorough 4) stores packets at interior names: there a prefix Get at a name that holds a packet may return that packet or a newest one below it (MemoryStore does the former, BoltStore the latter; ndn.Store does not say), every other answer is determined by a plain map name -> (version, wire)",
 	"consumer styles: a slice returned by ConsumeState.Content() belongs to the application (nothing in the API says it is valid only until the next call): styles keep/alt/late hold the slices without copying and the harness compares each with a private copy taken when it was returned, after every later callback (all of them for the first 64 callbacks, then every 64th, and at completion) and at the end of the history. Style late never calls Content() before IsComplete(): a fetch must complete without the application draining the buffer",
 	"look-alike names: name components are compared by type and value (enc.Name.Equal); the store-level pass has its own universe of 8 packets / 23 operations (depth 3, direct and transaction mode) with sibling components that differ in type only (32=metadata / metadata, 32=item / item, v=1 / %01, seg=1 / off=1)",
+	"past-the-end packets (families tail, tailP, tailR): n = 1..3 segments (tailP: 2..5, thorough 2..6; window edge: 10 and 11 segments), buffer splits {L}, {L,L}, {0,L}, {0,0,L/2,L/2,L}; a version published twice is expected to be retrieved as its LATEST publication (the store overwrites packets of equal name; no cache in these scenarios); foreign packets are well-formed Data (blob, digest signature) put into the producer's store directly; the request stream is observed but an Interest beyond FinalBlockId is not by itself a violation (the property speaks of what the callback reports): it becomes one only when the fetch then fails within the retry budget, delivers other bytes or completes more than once",
+	"store transaction mode: every Put is preceded by Begin / Put of a decoy (same name, version+1000, other bytes) / Rollback; a rolled-back packet must never be returned",
 	"long objects (1000..1100 segments, scaled build: 4..4.4 kB) run on the default schedule only (k=0); thresholds other than those within 1000..1100 segments are not probed; the real-segment-size child runs 1025 segments (8.2 MB) in the thorough tier only",
 }
 
@@ -585,9 +661,19 @@ func main() {
 			removeTmp()
 			return
 		}
-		cov := runStores(rep, false, time.Now().Add(8*time.Second))
+		benchS := 8
+		if n, err := strconv.Atoi(os.Getenv("C15_STOREBENCH_S")); err == nil && n > 0 {
+			benchS = n
+		}
+		cov := runStores(rep, thoroughTier(), time.Now().Add(time.Duration(benchS)*time.Second))
 		pprof.StopCPUProfile()
 		fmt.Println(cov["histories_done"], time.Since(t0), rep.Count())
+		for _, k := range []string{"version_boundaries", "lookalike_names", "prefix_related_names"} {
+			if m, ok := cov[k].(map[string]any); ok {
+				fmt.Println(k, m["histories_done"], "of", m["histories_total"], "exhaustive", m["exhaustive"], "gets", m["get_comparisons"])
+			}
+		}
+		fmt.Println("main exhaustive", cov["exhaustive"], "of", cov["histories_total"])
 		removeTmp()
 		return
 	}
